@@ -31,9 +31,25 @@ def program(rng, with_assign):
     names = []
     muts = []
     n = rng.randint(2, 9)
+    tables = []
+    if rng.random() < 0.3:
+        # two tables sharing the key column `id`; several rows of each have no partner in the other (the outer joins
+        # append them: their order must not depend on anything but the program)
+        la = sorted(rng.sample(range(1, 12), rng.randint(2, 6)))
+        lb = sorted(rng.sample(range(1, 12), rng.randint(3, 8)))
+        stmts.append("ta := | id<u64> a<f64> |" + "".join(" %d %d |" % (k, 10 * k) for k in la))
+        stmts.append("tb := | id<u64> b<f64> |" + "".join(" %d %d |" % (k, k + 100) for k in lb))
+        tables = ["ta", "tb"]
     for i in range(n):
         r = rng.random()
         name = "v%d" % i
+        if tables and r < 0.3:
+            a, b = rng.sample(tables, 2) if rng.random() < 0.8 else (tables[0], tables[0])
+            sym, word = rng.choice([("⋈", "table/join"), ("⟕", "table/left-outer-join"), ("⟖", "table/right-outer-join"),
+                                    ("⟗", "table/full-outer-join"), ("⋉", "table/left-semi-join"), ("▷", "table/left-anti-join")])
+            stmts.append("%s := %s" % (name, ("%s %s %s" % (a, sym, b)) if rng.random() < 0.7 else "%s(%s, %s)" % (word, a, b)))
+            names.append((name, "o"))
+            continue
         if with_assign and muts and r < 0.35:
             m, kind = rng.choice(muts)
             if kind == "s":
